@@ -335,11 +335,13 @@ class DirectObjectAccess:
         return [name for name in names if isinstance(name, str)]
 
     def has_iter(self):
+        # Don't use iter(), it would execute a custom `__iter__`.
+        cls = type(self._obj)
         try:
-            iter(self._obj)
-            return True
-        except TypeError:
-            return False
+            attr, _ = getattr_static(cls, '__iter__')
+        except AttributeError:
+            attr, _ = getattr_static(cls, '__getitem__', None)
+        return attr is not None
 
     def is_allowed_getattr(self, name, safe=True) -> Tuple[bool, bool, Optional[AccessPath]]:
         # TODO this API is ugly.
